@@ -1191,6 +1191,13 @@ class Interp:
                     conts = [(pth, n) for pth, n in locs if n.t in "AO"]
                     dst_path, dst = conts[(sel >> (5 + 3 * j)) % len(conts)]
                     tail = (b"/-", b"/0", b"/1")[(sel >> j) % 3] if dst.t == "A" else (b"/moved here", b"/" + KEY_POOL[(sel >> j) % len(KEY_POOL)].replace(b"~", b"~0").replace(b"/", b"~1"))[(sel >> j) & 1]
+                    if dst.t == "O" and dst.children and (sel >> (7 + j)) % 3 == 0:
+                        # the name of an existing member, as it is or in another letter case (the same member for the case-insensitive
+                        # entry point, a new one for the case-sensitive one): the old value is replaced - and released
+                        ek = dst.children[(sel >> 9) % len(dst.children)].key
+                        ek = ek.swapcase() if (sel >> 11) & 1 else ek
+                        tail = b"/" + ek.replace(b"~", b"~0").replace(b"/", b"~1")
+                        self.feat.add("utils_patch_overwrites_member")
                     opname = (b"copy", b"move", b"copy", b"replace", b"remove", b"add", b"test")[(sel >> (1 + 2 * j)) % 7]
                     op = lib.cJSON_CreateObject()
                     lib.cJSON_AddItemToObject(op, b"op", lib.cJSON_CreateString(opname))
